@@ -3,6 +3,7 @@
 //!   p_line_bbox x0 y0 x1 y1 w        C02: everything drawn / yielded lies in the (styled) bounding box
 //!   p_line_translate dx dy x0 y0 x1 y1 w   C07: points(), pixels(), boxes, draw() commute with translate / translate_mut
 //!   p_line_total x0 y0 x1 y1 w       C08: no panic (overflow checks on), bounded number of pixels
+use crate::suites::c17::pixel_budget;
 use crate::util::*;
 use embedded_graphics::{
     pixelcolor::Gray8,
@@ -31,11 +32,14 @@ fn p_line_bbox(l: Line, w: u32) -> String {
         return format!("FAIL styled box {:?} differs from primitive box for width {}", sbb, w);
     }
     let mut n = 0usize;
-    for p in s.pixels() {
+    for p in s.pixels().take(pixel_budget(&l, w)) {
         n += 1;
         if !sbb.contains(p.0) {
             return format!("FAIL pixels() yields {}:{} outside styled bounding_box {:?}", p.0.x, p.0.y, sbb);
         }
+    }
+    if n >= pixel_budget(&l, w) {
+        return format!("FAIL more than (3w+2)*(dmaj+1) pixels ({})", n);
     }
     let big = Rectangle::new(Point::new(-1 << 22, -1 << 22), Size::new(1 << 23, 1 << 23));
     let mut t = IterTarget::<Gray8>::new(big);
@@ -77,16 +81,20 @@ fn p_line_translate(d: Point, l: Line, w: u32) -> String {
     }
     let s = l.into_styled(st(w));
     let sm = m.into_styled(st(w));
-    let a: Vec<Point> = s.pixels().map(|p| p.0 + d).collect();
-    let b: Vec<Point> = sm.pixels().map(|p| p.0).collect();
+    let cap = pixel_budget(&l, w);
+    let a: Vec<Point> = s.pixels().take(cap).map(|p| p.0 + d).collect();
+    let b: Vec<Point> = sm.pixels().take(cap).map(|p| p.0).collect();
     if a != b {
         return "FAIL pixels() of the moved styled line".into();
+    }
+    if b.len() >= cap {
+        return "FAIL more than (3w+2)*(dmaj+1) pixels".into();
     }
     if sm.bounding_box() != s.bounding_box().translate(d) {
         return "FAIL styled bounding_box of the moved line".into();
     }
     // Styled::translate as well
-    let st2: Vec<Point> = s.translate(d).pixels().map(|p| p.0).collect();
+    let st2: Vec<Point> = s.translate(d).pixels().take(cap).map(|p| p.0).collect();
     if st2 != b {
         return "FAIL Styled::translate".into();
     }
